@@ -272,6 +272,11 @@ def task_pair_order_labels(pr, repo):
         pr.explore(ex, thunk, 'pair order labels ' + fname)
 
 
+def task_option_parse(pr, repo):
+    from . import C14
+    C14.task_parse(pr, repo)
+
+
 def run(pr, repo):
     pr.level = 'other'
     pr.explanation = ('deductive core (VC + frame census) plus bounded relabelling monitor; level "other" because the insertion-code '
@@ -281,7 +286,9 @@ def run(pr, repo):
     pr.parallel([(task_same_residue, ()), (task_eq_label, ()), (task_sort_key, ()), (C05.task_set_determinants, ()),
                  (C05.task_iterative, ()), (C08.task_average_twins, ()),
                  # bonds and disulfide flags are decided by elements and distance only - residue labels are symbolic there
-                 (task_bond_labels, ()), (task_bond_path_labels, ()), (task_pair_order_labels, ()), (task_intrinsic, ())])
+                 (task_bond_labels, ()), (task_bond_path_labels, ()), (task_pair_order_labels, ()), (task_intrinsic, ()),
+                 # options that name residues are relabelled with the structure: negative numbers, any chain character
+                 (task_option_parse, ())])
     for f, allowed in READERS.items():
         frames.clause(pr, repo, 'readers of .%s are the declared ones' % f, f, 'readers', allowed)
     pr.assumptions += ['atom order (changed by relabelling through the sort key) only permutes commutative sums: A-REAL',
@@ -361,6 +368,39 @@ def bounded(pr):
                 d = ['%s: %s' % (type(e).__name__, e)]
             if d and len(viol) < 4:
                 viol.append({'what': '%s, %s: %s' % (name, what, d[:2]), 'replay': None})
+    # options that name chains / residues, relabelled together with the structure
+    def key(g):
+        return (g['type'], round(g['pka'], 6), round(g['evol'], 6), round(g['buried'], 6), g['coupled'] > 0, g['reported'], g['titratable'])
+    for name in names[:2]:
+        lines = native.pdb_lines(name)
+        chains = sorted({l[21] for l in lines if l[:6] in ('ATOM  ', 'HETATM')})
+        base = native.run_text(lines)
+        picks = [g for g in base.conformations['AVR'].groups if g.titratable and g.atom.type == 'atom'][:12:3]
+        cases = []
+        sh = {c: -60 for c in chains}                       # residue numbers go negative
+        cm = {chains[0]: ' '}                               # first chain loses its identifier
+        cm2 = {chains[0]: 'q'}                              # ... or becomes a lower-case letter
+        for what, kw in (('numbers shifted by -60 (negative numbers)', dict(shift=sh)), ('first chain renamed to q', dict(chain_map=cm2))):
+            lst0 = ','.join('%s:%d' % (g.atom.chain_id, g.atom.res_num) for g in picks)
+            lst1 = ','.join('%s:%d' % (kw.get('chain_map', {}).get(g.atom.chain_id, g.atom.chain_id),
+                                       g.atom.res_num + kw.get('shift', {}).get(g.atom.chain_id, 0)) for g in picks)
+            cases.append((what + ', --titrate_only list relabelled too', ['-i', lst0], ['-i', lst1], kw))
+        cases.append(('first chain renamed to blank and selected with -c', ['-c', chains[0]], ['-c', ' '], dict(chain_map=cm)))
+        for what, o0, o1, kw in cases:
+            ev += 1
+            classes.add(what)
+            try:
+                a = native.record(native.run_text(lines, o0), with_label=False)
+                b = native.record(native.run_text(relabel(lines, **kw), o1), with_label=False)
+                d = []
+                for conf in a:
+                    ka, kb = sorted(map(key, a[conf]), key=repr), sorted(map(key, b.get(conf, [])), key=repr)
+                    if ka != kb:
+                        d.append('%s: %d vs %d groups, %d value tuples differ' % (conf, len(ka), len(kb), len([1 for x, y in zip(ka, kb) if x != y])))
+            except (Exception, SystemExit) as e:    # noqa
+                d = ['%s: %s' % (type(e).__name__, e)]
+            if d and len(viol) < 4:
+                viol.append({'what': '%s, %s (options %r -> %r): %s' % (name, what, o0, o1, d[:2]), 'replay': None})
     pr.bounded.append({'name': 'C06-monitor: relabelling on real runs', 'evaluations': ev, 'distinct_nontrivial': len(classes),
                        'bound': '%d structures x up to 4 relabellings' % len(names),
                        'rule': 'pKa, desolvation, buried value, coupled mark, reported flag and discard reason of all groups compared as multisets per conformation (6 decimals)',
